@@ -103,6 +103,50 @@ def check(ctx):
     riter = ast.unparse(rloop[0].iter) if rloop else None
     ok_r = False
     acc_name = None
+    flat = None
+    if not rloop:
+        # the union written as one expression: list(chain.from_iterable(<bucket> for k[, plane] in tables)) or
+        # [i for k in tables for i in <bucket>]
+        rets_ = [s for s in gn_n.body if isinstance(s, ast.Return) and s.value is not None]
+        if len(rets_) == 1:
+            v = rets_[0].value
+            g = None
+            if isinstance(v, ast.Call) and ast.unparse(v.func) == "list" and len(v.args) == 1 and \
+                    isinstance(v.args[0], ast.Call) and ast.unparse(v.args[0].func).endswith("chain.from_iterable") \
+                    and len(v.args[0].args) == 1 and isinstance(v.args[0].args[0], (ast.GeneratorExp, ast.ListComp)) \
+                    and len(v.args[0].args[0].generators) == 1 and not v.args[0].args[0].generators[0].ifs:
+                g = (v.args[0].args[0].generators[0], v.args[0].args[0].elt)
+            elif isinstance(v, ast.ListComp) and len(v.generators) == 2 and not v.generators[0].ifs and \
+                    not v.generators[1].ifs and isinstance(v.generators[1].target, ast.Name) and \
+                    ast.unparse(v.elt) == v.generators[1].target.id:
+                g = (v.generators[0], v.generators[1].iter)
+            if g is not None:
+                gen, bucket = g
+                it_ = gen.iter
+                tg_ = gen.target
+                import copy as _copy
+                bucket = _copy.deepcopy(bucket)
+                if isinstance(it_, ast.Call) and isinstance(it_.func, ast.Attribute) and it_.func.attr == "items" and \
+                        isinstance(tg_, ast.Tuple) and len(tg_.elts) == 2 and \
+                        all(isinstance(e, ast.Name) for e in tg_.elts):
+                    kname, vname = tg_.elts[0].id, tg_.elts[1].id
+                    d_ = it_.func.value
+
+                    class R(ast.NodeTransformer):
+                        def visit_Name(self, n):
+                            if n.id == vname and isinstance(n.ctx, ast.Load):
+                                return ast.Subscript(value=_copy.deepcopy(d_), slice=ast.Name(id=kname, ctx=ast.Load()),
+                                                     ctx=ast.Load())
+                            return n
+                    bucket = R().visit(bucket)
+                    rk, riter = kname, ast.unparse(d_)
+                elif isinstance(tg_, ast.Name):
+                    rk = tg_.id
+                    riter = ast.unparse(it_.func.value) if isinstance(it_, ast.Call) and isinstance(
+                        it_.func, ast.Attribute) and it_.func.attr == "keys" else ast.unparse(it_)
+                flat = " ".join(ast.unparse(ast.fix_missing_locations(bucket)).split())
+                ok_r = flat == ("self.table_to_hash_to_index[%s][self.get_context_hash(row_2d, "
+                                "self.table_to_plane[%s])[0]]" % (rk, rk))
     if rloop:
         grows = [x for x in ast.walk(rloop[0]) if isinstance(x, ast.Call) and isinstance(x.func, ast.Attribute) and
                  x.func.attr == "extend" and isinstance(x.func.value, ast.Name) and len(x.args) == 1]
@@ -123,6 +167,8 @@ def check(ctx):
     rets = [s for s in gn_n.body if isinstance(s, ast.Return)]
     ok_u = bool(acc) and ast.unparse(acc[0].value) in ("list()", "[]") and bool(rets) and \
         ast.unparse(rets[-1].value) == acc_name
+    if flat is not None:
+        ok_u = ok_r         # the flattening expression is the union of the buckets of all tables
     ctx.check(ok_u, "R11.4", "the candidates of all tables are accumulated in one list", gn.node, gn,
               construct="def _LSHNearest._get_neighbors (union)")
     pc = prog.method("_ApproximateNeighbors", "_predict_contexts")
